@@ -474,7 +474,7 @@ def _assemble_once(seed, f, prevlay, header):
             others = [m for m in sorted(ent) if m != n and ent[m][0] == 1]
             nonstream = [m for m in others if m in objects and not isinstance(objects[m], Stream)]
             if f.kind == "ent_dangling":
-                ent[n] = (1, pl.size + 1000, 0)
+                ent[n] = (1, 60000, 0)          # past the end of every seed document (and fits a 2-byte field)
             elif f.kind == "ent_other":
                 ent[n] = (1, ent[others[0]][1] if others else 9, 0)
             elif f.kind == "ent_mid":
